@@ -366,6 +366,9 @@ def _ops_of_stmt(s: ast.stmt, list_names: Set[str]) -> List[tuple]:
         if isinstance(t, ast.Tuple) and isinstance(s.value, ast.Tuple) and len(t.elts) == len(s.value.elts):
             return [("let", a.id, b) for a, b in zip(t.elts, s.value.elts) if isinstance(a, ast.Name)]
         return []
+    # name: annotation = value   (a local with a type annotation)
+    if isinstance(s, ast.AnnAssign) and isinstance(s.target, ast.Name) and s.value is not None:
+        return [("let", s.target.id, s.value)]
     if isinstance(s, ast.Delete):
         for t in s.targets:
             if isinstance(t, ast.Subscript) and (_is_content(t.value) or _is_self(t.value, list_names)):
